@@ -307,24 +307,27 @@ Definition kind_write (k : Z) : Z -> Z -> Z :=
   if k =? 0 then crash_write else if k =? 1 then lat_write
   else if k =? 2 then loss_write else capv_write.
 
-(** Register timeline: (kind, configured values, schedule, samples (t, target, observed)). *)
-Definition ok_reg (c : Z * list (Z * Z) * list win * list (Z * Z * Z)) : bool :=
+(** Register timeline: (kind, configured values, schedule, samples grouped by
+    instant: (t, [(target, observed)])).  [reg_run .. (upto t (delivered sched)) x]
+    is [reg_at .. sched t x]; the stream is computed once per case. *)
+Definition ok_reg (c : Z * list (Z * Z) * list win * list (Z * list (Z * Z))) : bool :=
   let '(k, cfg, sched, samples) := c in
-  forallb (fun s : Z * Z * Z =>
-             let '(t, x, v) := s in
-             reg_at (kind_write k) (fun y => zget y cfg) sched t x =? v) samples.
+  let d := delivered sched in
+  forallb (fun s : Z * list (Z * Z) =>
+             let st := reg_run (kind_write k) (fun y => zget y cfg) (upto (fst s) d) in
+             forallb (fun xv : Z * Z => st (fst xv) =? snd xv) (snd s)) samples.
 
-(** Partition timeline: samples (t, src, dst, observed is_partitioned) and
-    (t, |bidirectional set|, |directed set|). *)
-Definition ok_part (c : list win * list (Z * Z * Z * bool) * list (Z * Z * Z)) : bool :=
-  let '(sched, samples, sizes) := c in
-  forallb (fun s : Z * Z * Z * bool =>
-             let '(t, a, b, v) := s in
-             Bool.eqb (is_partitioned (part_at sched t) a b) v) samples &&
-  forallb (fun s : Z * Z * Z =>
-             let '(t, nb, nd) := s in
-             (Z.of_nat (length (ps_bi (part_at sched t))) =? nb) &&
-             (Z.of_nat (length (ps_di (part_at sched t))) =? nd)) sizes.
+(** Partition timeline: per instant t: observed is_partitioned for ordered
+    pairs (src, dst, observed), |bidirectional set|, |directed set|. *)
+Definition ok_part (c : list win * list (Z * list (Z * Z * bool) * Z * Z)) : bool :=
+  let '(sched, samples) := c in
+  let d := delivered sched in
+  forallb (fun s : Z * list (Z * Z * bool) * Z * Z =>
+             let '(t, pairs, nb, nd) := s in
+             let st := fold_left part_step (upto t d) ps0 in
+             forallb (fun p : Z * Z * bool =>
+                        Bool.eqb (is_partitioned st (fst (fst p)) (snd (fst p))) (snd p)) pairs &&
+             (Z.of_nat (length (ps_bi st)) =? nb) && (Z.of_nat (length (ps_di st)) =? nd)) samples.
 
 (** Capacity: (orig, schedule, workload, observed (capacity, available, result) after every op). *)
 Definition ok_cap (c : Z * list win * list (Z * cop) * list (Z * Z * Z)) : bool :=
